@@ -183,6 +183,65 @@ def stream_P(n, seed):
     return lines, pyc
 
 
+FUN_ALPHA = ' \t\n\r\x0b\x0c\x1c\x1d\x1e\x1f\x85\xa0\u1680\u2000\u2028\u2029\u202f\u205f\u3000\x00\x01\x02' \
+            'abzABZ09_-.,;:!?&<>"\'/\\|*#>`~=+()[]{}$@%^' \
+            '\xdf\xe9\xc9\u0130\u0131\u01c5\u03a3\u03c3\u03c2\u0386\u1e9e\u212a\u2126\ufb01\u0410\u0430\u4e2d\U00010400\U0001f600'
+
+
+def fun_text(rng, lo=0, hi=14, alpha=FUN_ALPHA):
+    return ''.join(rng.choice(alpha) for _ in range(rng.randint(lo, hi)))
+
+
+def stream_F(n, seed):
+    """library functions of the model against the interpreter / the rimu helpers: str.lower, strip, replace, the special-
+    character escape, the reader's line splitting and blanking, slugify with a registry, the two content filters"""
+    rng = random.Random(seed)
+    # every code point of the generated lower-case table, in context, once per run
+    lines, pyc = [], []
+
+    def add(fn, *args):
+        lines.append('F %s %s' % (fn, ' '.join(enc_str(a) for a in args)))
+        pyc.append({'kind': 'F', 'fn': fn, 'args': list(args)})
+    for _ in range(n):
+        t = fun_text(rng)
+        if 'Σ' in t or 'İ' in t:      # context-sensitive lower-casing: excluded from the model (DESIGN 0.8)
+            t = t.replace('Σ', 's').replace('İ', 'i')
+        add('lower', t)
+        add(rng.choice(['strip', 'lstrip', 'rstrip']), fun_text(rng, 0, 10, ' \t\n\x0b\x0c\r\x1c\x1f\x85\xa0\u2003\u3000ab.'))
+        add('escape', fun_text(rng, 0, 12, '&<>ab"\' ;'))
+        old = fun_text(rng, 1, 2, 'ab&#')
+        add('replace', old, fun_text(rng, 0, 3, 'xy#'), fun_text(rng, 0, 12, 'ab&#x'))
+        add('reader', fun_text(rng, 0, 16, 'ab \n\n\r\r\x00\x01\x02\u2028\x0b\x0c\x85'))
+        ids = [fun_text(rng, 1, 4, 'ab-23x') for _ in range(rng.randint(0, 4))]
+        title = fun_text(rng, 0, 10, 'aAbB -_!?2\xc9\xe9\u0410')
+        if rng.random() < 0.5 and ids:
+            title = rng.choice(ids).upper().replace('-', ' ')
+        ids2 = ids + [i + '-2' for i in ids[:2]] + [i + '-3' for i in ids[:1]]
+        add('slug', *(ids2 + [title.replace('Σ', 's').replace('İ', 'i')]))
+        add('qpara', fun_text(rng, 0, 14, '>\\ ab\n\n'))
+        ind = '\n'.join(' ' * rng.randint(0, 4) + fun_text(rng, 0, 5, 'ab \t') for _ in range(rng.randint(1, 4)))
+        add('indent', ind)
+    return lines, pyc
+
+
+def compare_F(mline, ires):
+    if mline.startswith('ERR'):
+        return 'model: ' + mline
+    if 'error' in ires:
+        return 'impl: %r' % (ires,)
+    if mline.startswith('X '):
+        # the model names the assertion of a content filter Filter
+        return None if ires.get('x') in (mline[2:], {'Filter': 'ExAssert'}.get(mline[2:])) else 'model raises %s, impl %r' % (mline[2:], ires)
+    if 'x' in ires:
+        return 'impl raises %s, model %r' % (ires['x'], mline[:60])
+    v = ires['v']
+    if isinstance(v, list):
+        mv = [dec_str(t) for t in mline.split(' ')] if mline else []
+    else:
+        mv = dec_str(mline)
+    return None if mv == v else 'model %r impl %r' % (mv, v)
+
+
 def compare_R(mline, ires):
     if mline.startswith('ERR'):
         return 'model: ' + mline
@@ -245,3 +304,14 @@ if __name__ == '__main__':
                 shown += 1
                 print('P', repr(c['pat']), c['ic'], c['ml'], repr(c['text']), r)
     print('P cases', len(lines), dict(bad))
+    lines, pyc = stream_F(n * 20, seed)
+    mo = model_run(lines)
+    io_ = impl_run(pyc)
+    bad = collections.Counter()
+    for l, c, m, i in zip(lines, pyc, mo, io_):
+        r = compare_F(m, i)
+        if r:
+            bad[c['fn']] += 1
+            if bad[c['fn']] <= 3:
+                print('F', c['fn'], c['args'], r)
+    print('F cases', len(lines), dict(bad))
